@@ -34,6 +34,11 @@ var c13labels = []c13lab{
 	/* 14 */ {"local b = \x01\nlocal t = { dd = b }\nq = t.dd\n", 1, false, false, ""},
 	/* 15 */ {"local dd = function(p\x02) end\n", 0, true, false, "p\x02"},
 	/* 16 */ {"dd = function(p\x02, ...) end\n", 0, false, false, "p\x02, ..."},
+	/* 17 */ {"local function dd(...) end\n", 0, true, false, "..."},
+	/* 18 */ {"function dd(...) end\nq = dd\n", 1, false, false, "..."},
+	/* 19 */ {"local t = {}\nfunction t.dd(...) end\nq = t.dd\n", 1, false, false, "..."},
+	/* 20 */ {"local t = {}\nfunction t.dd(p\x02, q\x03) end\nq = t.dd\n", 1, false, false, "p\x02, q\x03"},
+	/* 21 */ {"local function dd() end\n", 0, true, false, "()"},
 }
 
 func VerifRun_C13d() {
@@ -100,6 +105,9 @@ func VerifRun_C13d() {
 		if ok {
 			shown := strings.Split(label[open+1:close], ", ")
 			written := strings.Split(params, ", ")
+			if params == "()" { // an empty parameter list
+				written = []string{""}
+			}
 			ok = len(shown) == len(written)
 			for i := 0; ok && i < len(shown); i++ {
 				name := shown[i]
